@@ -58,8 +58,17 @@ theorem c03_decode_once (bf : Bool) (parse : Bytes → Option SockAddr) (s : Ser
   unfold serve
   simp [h, hx]
 
-example : parseTarget ⟨9567⟩ false (ofString "/a/%2e%2e/secret/./key.html") =
-          parseTarget ⟨9567⟩ false (ofString "/secret//key%2Ehtml") := by decide +kernel
+/-- (canonical path of a request-target, for the examples) -/
+def pathOf (o : Opts) (t : Bytes) : Option Bytes :=
+  match parseTarget o false t with
+  | .ok u => some u.path
+  | .error _ => none
+
+-- non-vacuity: two spellings (dot segments, percent-encoding in both hex cases, duplicate
+-- slash) of one path, under the default options
+example : pathOf ⟨9567⟩ (ofString "/a/%2e%2E/secret/./key.html") = some (ofString "/secret/key.html") ∧
+          pathOf ⟨9567⟩ (ofString "/secret//key%2ehtml") = some (ofString "/secret/key.html") := by
+  decide +kernel
 
 /-! ## §2 a protected file is protected under every spelling -/
 
@@ -87,18 +96,16 @@ theorem c03_served_file_authorised (bf : Bool) (parse : Bytes → Option SockAdd
   · simp at h
   · rename_i t ht
     simp only [ht]
-    split at h
-    · simp at h
-    · rename_i hx
+    cases hx : Extforward.remoteAddr bf parse (extConf s.cfg ⟨t.path, r.host, r.peerAddr⟩) r.peer r.hdrs with
+    | bad => simp [hx] at h
+    | unchanged =>
+      simp only [hx] at h ⊢
       obtain ⟨n, hn, h1, h2, _, h4, h5, _, h7, h8, h9, h10⟩ := serveFrom_file s t _ _ _ f h
-      refine ⟨t, r.peerAddr, n, rfl, hn, ?_⟩
-      simp only [hx]
-      exact ⟨h1, h2, h4, h5, h7, h8, h9, h10⟩
-    · rename_i a sa hx
+      exact ⟨t, r.peerAddr, n, rfl, hn, h1, h2, h4, h5, h7, h8, h9, h10⟩
+    | set a sa =>
+      simp only [hx] at h ⊢
       obtain ⟨n, hn, h1, h2, _, h4, h5, _, h7, h8, h9, h10⟩ := serveFrom_file s t _ _ _ f h
-      refine ⟨t, sa, n, rfl, hn, ?_⟩
-      simp only [hx]
-      exact ⟨h1, h2, h4, h5, h7, h8, h9, h10⟩
+      exact ⟨t, sa, n, rfl, hn, h1, h2, h4, h5, h7, h8, h9, h10⟩
 
 /-- the rules refuse the file at URL `u` for client address `a`: mod_access denies it or
     static-file.exclude-extensions lists it -/
@@ -130,17 +137,101 @@ theorem c03_protected_never_served_case_sensitive_fs (bf : Bool) (parse : Bytes 
   subst hu
   exact hprot a
 
-/-- conditions that do not distinguish letter case of the URL (everything except the
-    case-sensitive string comparisons on `$HTTP["url"]`) -/
-def Scope.caseBlind : Scope → Prop
-  | .url _ _ => False
-  | .urlRe _ m => ∀ u v : Bytes, u.map toLower = v.map toLower → m u = m v
-  | _ => True
+/-- force-lowercase-filenames (case-insensitive file system): if no condition of the
+    configuration compares the URL case-sensitively, it is again enough that the rules
+    refuse the file at its own (lower-case) URL: every letter-case variant, encoded or not,
+    with or without path-info, is refused as well -/
+theorem c03_protected_never_served_force_lowercase (bf : Bool) (parse : Bytes → Option SockAddr)
+    (s : Server) (r : Req) (f : Bytes) (hlc : s.lc = true) (hcb : ∀ b ∈ s.cfg, b.scope.caseBlind)
+    (hf : f.map toLower = f) (hprot : ∀ a, Refused s r.host f a) :
+    (serve bf parse s r).file ≠ some f := by
+  apply c03_protected_never_served
+  intro u a hu
+  simp only [hlc, relPath, ↓reduceIte] at hu
+  have huf : u.map toLower = f.map toLower := by rw [hu, hf]
+  have hset : setting (·.exclude) s.cfg ⟨u, r.host, a⟩ = setting (·.exclude) s.cfg ⟨f, r.host, a⟩ :=
+    setting_congr _ _ _ _ (fun b hb _ => holds_caseBlind _ (hcb b hb) u f r.host a huf)
+  rcases hprot a with h1 | h1
+  · left
+    rw [hlc] at h1 ⊢
+    rw [accessHook_casefold s.cfg hcb u f r.host a huf]
+    exact h1
+  · right
+    rw [hset]
+    simpa [hlc, relPath, hu, hf] using h1
+
+/-- auth.require: a path guarded by a rule stays guarded – by that rule or one listed
+    before it – when a path-info (anything) is appended -/
+theorem c03_prefix_monotone (rules : List Bytes) (p info : Bytes) (lc : Bool) (i : Nat)
+    (h : authRule rules p lc = some i) : ∃ j, j ≤ i ∧ authRule rules (p ++ info) lc = some j :=
+  authRule_append rules p info lc i h
+
+example : authRule [ofString "/secret/sub/", ofString "/secret/"] (ofString "/secret/key.html") false = some 1 ∧
+          authRule [ofString "/secret/sub/", ofString "/secret/"] (ofString "/secret/key.html/x/../y") false = some 1 := by
+  decide +kernel
+
+/-- If auth.require is not assigned inside URL conditions and a rule guards the file's own
+    URL, then every request that is answered with the file – any spelling, any letter case
+    under force-lowercase-filenames, any path-info – carried accepted credentials. -/
+theorem c03_auth_guard_all_spellings (bf : Bool) (parse : Bytes → Option SockAddr) (s : Server) (r : Req)
+    (f : Bytes) (hfree : ∀ b ∈ s.cfg, b.auth.isSome = true → b.scope.urlFree)
+    (hf : s.lc = true → f.map toLower = f)
+    (hguard : ∀ a, (authHook s.cfg ⟨f, r.host, a⟩ s.lc).isSome = true)
+    (h : (serve bf parse s r).file = some f) : r.cred = true := by
+  obtain ⟨t, a, n, _, hn, _, _, hfu, _, _, _, _, hauth⟩ := c03_served_file_authorised bf parse s r f h
+  apply hauth
+  have hset : setting (·.auth) s.cfg ⟨t.path, r.host, a⟩ = setting (·.auth) s.cfg ⟨f, r.host, a⟩ :=
+    setting_congr _ _ _ _ (fun b hb hs => holds_urlFree _ (hfree b hb hs) _ _ _ _)
+  have hg := hguard a
+  unfold authHook at hg ⊢
+  simp only [hset]
+  simp only at hg
+  obtain ⟨i, hi⟩ := Option.isSome_iff_exists.1 hg
+  -- the rule that guards `f` also guards the split URL …
+  have hu : authRule (listOf (setting (·.auth) s.cfg ⟨f, r.host, a⟩))
+      (t.path.take (t.path.length - n)) s.lc = some i := by
+    cases hlc : s.lc with
+    | false =>
+      rw [hlc] at hfu hi
+      simp only [relPath, Bool.false_eq_true, ↓reduceIte] at hfu
+      rw [← hfu]; exact hi
+    | true =>
+      rw [hlc] at hfu hi
+      simp only [relPath, ↓reduceIte] at hfu
+      rw [authRule_casefold _ (t.path.take (t.path.length - n)) f (by rw [← hfu, hf hlc])]
+      exact hi
+  -- … and the full path, which extends it by the path-info
+  obtain ⟨j, _, hj⟩ := authRule_append _ _ (t.path.drop (t.path.length - n)) _ _ hu
+  rw [List.take_append_drop] at hj
+  simp [hj]
 
 /-! ## §3 letter case under force-lowercase-filenames -/
 
-/-- mod_access_check() under force-lowercase-filenames depends on the lower-cased path
-    only, and equals the plain check on lower-cased rules and path -/
-theorem c03_case_fold (allow deny p q : Bytes.{0} |> fun _ => List Bytes) : True := trivial
+/-- mod_access_check() and the auth.require lookup under force-lowercase-filenames depend on
+    the lower-cased path only; the check equals the plain (case-sensitive) check on
+    lower-cased rules and path -/
+theorem c03_case_fold (allow deny rules : List Bytes) (p q : Bytes) (h : p.map toLower = q.map toLower) :
+    accessCheck allow deny p true = accessCheck allow deny q true ∧
+    authRule rules p true = authRule rules q true ∧
+    accessCheck allow deny p true =
+      accessCheck (allow.map (·.map toLower)) (deny.map (·.map toLower)) (p.map toLower) false :=
+  ⟨accessCheck_casefold allow deny p q h, authRule_casefold rules p q h, accessCheck_nc_eq allow deny p⟩
+
+example : (ofString "/Dir/X.INC").map toLower = (ofString "/dir/x.inc").map toLower ∧
+          accessCheck [] [ofString ".inc"] (ofString "/Dir/X.INC") true = false := by decide +kernel
+
+/-- the byte test of buffer_eq_icase_ssn() identifies exactly the bytes with the same ASCII
+    lower-case form (so '@' and '`', '[' and '{', 0xC1 and 0xE1 are NOT identified) -/
+theorem c03_icase_byte (a b : UInt8) : eqIcaseByte a b = (toLower a == toLower b) := eqIcaseByte_eq a b
+
+example : eqIcaseByte 64 96 = false ∧ eqIcaseByte 91 123 = false ∧ eqIcaseByte 0xc1 0xe1 = false ∧
+          eqIcaseByte 65 97 = true := by decide +kernel
+
+/-- the whole mod_access hook (conditional configuration included) looks at the lower-cased
+    URL only, if no condition compares the URL case-sensitively -/
+theorem c03_case_fold_hook (cfg : List Block) (hcb : ∀ b ∈ cfg, b.scope.caseBlind)
+    (u v h : Bytes) (a : SockAddr) (huv : u.map toLower = v.map toLower) :
+    accessHook cfg ⟨u, h, a⟩ true = accessHook cfg ⟨v, h, a⟩ true :=
+  accessHook_casefold cfg hcb u v h a huv
 
 end LtVerif.C03
